@@ -166,6 +166,9 @@ impl Parser for Markdown {
 
         let mut stack = Vec::new();
 
+        // The byte offset up to which text events have been seen.
+        let mut text_until = 0;
+
         // NOTE: the range spits out __byte__ indices, not char indices.
         // This is why we keep track above.
         for (event, range) in md_parser.into_offset_iter() {
@@ -223,6 +226,13 @@ impl Parser for Markdown {
                     }
                 }
                 pulldown_cmark::Event::Text(text) => {
+                    // For a Wikilink with an empty label (`[[a|]]b`) pulldown-cmark reports the
+                    // text behind the link twice: once inside the link and once after it.
+                    if range.start < text_until {
+                        continue;
+                    }
+                    text_until = range.end;
+
                     // The event text can be longer than the source it stands for (a tab that
                     // pulldown-cmark expands to spaces): never reach past the event's own range.
                     let range_len = source_str[range.clone()].chars().count();
